@@ -18,7 +18,7 @@ def js_string(total_len):
 
 def points():
     return ["api-start-input", "api-startsync-input", "pass-output", "pass-end-output", "task-reply", "task-end-reply", "task-reply-discarded", "invoke-reply-discarded", "task-reply-discarded-compact", "task-reply-discarded-padded", "task-reply-discarded-orphan-replayed",
-            "map-output", "parallel-output", "callback-output", "callback-raw", "callback-raw-discarded", "definition-create", "definition-update", "name-create", "name-start", "name-create-nl", "name-start-nl", "history", "history-retry"]
+            "map-output", "parallel-output", "callback-output", "callback-raw", "callback-raw-discarded", "definition-create", "definition-update", "name-create", "name-start", "name-create-nl", "name-start-nl", "history", "history-retry", "history-exact"]
 
 def _case(args):
     point, size = args
@@ -205,6 +205,25 @@ def _case(args):
         n = len(w.history(exec_arn("m", "e")) or [])
         got = ("history", status, err, n)
         want_err = None
+    elif point == "history-exact":
+        # the exact boundary: a state whose StateEntered event has a number above the limit is not executed (the execution fails there),
+        # one whose StateEntered is event number 25000 is; `size` leading (failing, caught) fan-outs shift where the loop's events fall
+        states = {"A": {"Type": "Pass", "Next": "C"}, "C": {"Type": "Choice", "Choices": [{"Variable": "$.stop", "BooleanEquals": True, "Next": "Z"}], "Default": "A"}, "Z": Z}
+        first = "A"
+        for i in range(size):
+            # (a Parallel whose only branch is a Fail state, caught: the Fail state logs no StateExited - an odd number of events)
+            states["T%d" % i] = {"Type": "Parallel", "Branches": [{"StartAt": "F%d" % i, "States": {"F%d" % i: {"Type": "Fail", "Error": "E"}}}],
+                                 "Catch": [{"ErrorEquals": ["States.ALL"], "Next": first, "ResultPath": None}], "Next": first}
+            first = "T%d" % i
+        w, api = world({"m": {"StartAt": first, "States": states}}, workers={"f": {"*": [["err", "E1", "x"]]}})
+        w.script.append({"op": "start", "machine": "m", "name": "e", "input": {"stop": False}})
+        w.run(max_steps=40000)
+        status, err = terminal(w, exec_arn("m", "e"))
+        h = [dict(x) for x in (w.history(exec_arn("m", "e")) or [])]
+        entered = [i + 1 for i, ev in enumerate(h) if str(ev.get("type", "")).endswith("StateEntered")]
+        ran_over = [p_ for p_ in entered if p_ > MAXH and p_ < len(h) and not str(h[p_].get("type", "")).startswith("ExecutionFailed")]
+        got = ("history-exact", status, err, len(h), [p_ for p_ in entered if MAXH - 2 <= p_ <= MAXH + 4], ran_over)
+        want_err = None
     elif point == "history":
         # a machine that loops for ever: its history must not grow without bound
         d = {"StartAt": "A", "States": {"A": {"Type": "Pass", "Next": "C"}, "C": {"Type": "Choice", "Choices": [{"Variable": "$.stop", "BooleanEquals": True, "Next": "Z"}], "Default": "A"}, "Z": Z}}
@@ -227,6 +246,9 @@ def cases(tier):
         elif pt.startswith("name"):
             szs = [0, 1, 2, 79, 80, 81, 82, 160]
             lim = 80
+        elif pt == "history-exact":
+            szs = [0, 1, 2]
+            lim = MAXH
         elif pt in ("history", "history-retry"):
             szs = [40000]
             lim = MAXH
@@ -244,8 +266,17 @@ def run(tier, seed):
     with ctx.Pool(common.JOBS) as pool:
         outs = pool.map(_case, [(pt, s) for pt, s, lim in cs], chunksize=1)
     n = 0
+    exact_entries = []
     for (pt, s, lim), (got, want_err) in zip(cs, outs):
         n += 1
+        if pt == "history-exact":
+            _, status, err, hlen, near, ran_over = got
+            exact_entries.extend(near)
+            if status != "FAILED" or ran_over or hlen > MAXH + 10:
+                sig = "quota|history-exact|" + ("state-run-past-the-limit" if ran_over else "not-failed")
+                cr.add(sig, "looping execution behind %d leading caught fan-outs ended %s (%s) with %d events; states entered at event numbers %s were executed although the limit is %d" % (s, status, err, hlen, ran_over, MAXH),
+                       {"kind": "quota", "property": PROP, "signature": sig, "point": pt, "size": s}, size=1)
+            continue
         if pt in ("history", "history-retry"):
             _, status, err, hlen = got
             if status != "FAILED" or hlen > MAXH + 10:
@@ -266,7 +297,8 @@ def run(tier, seed):
         "evaluations": n, "distinct_nontrivial": n,
         "rule": "for each enforcement point (StartExecution / StartSyncExecution input, SendTaskSuccess output, Pass / Map / Parallel state output with Next and with End, task reply with Next, with End and thrown away by ResultPath null (short and invoke form), callback message published straight to the reply queue (kept and thrown away), "
                 "definition in Create / Update, names in Create / StartExecution) every size L-2..L+2 plus a tiny one and 2L, as bare JSON strings so that every serializer yields the same text length; "
-                "plus a looping machine run for 40000 steps against the real 25000-event history limit; each through the real API / engine on the simulated broker",
+                "plus a looping machine run for 40000 steps against the real 25000-event history limit, and the same loop behind 0 / 1 / 2 leading caught fan-outs (so that state entries fall on event numbers 25000 and 25001): no state entered past the limit is executed; each through the real API / engine on the simulated broker",
+        "history_boundary_entries_observed": sorted(set(exact_entries)),
         "points": points(), "samples": [{"point": "pass-output", "size": MAXD}, {"point": "api-start-input", "size": MAXD + 1}], "exhaustive": True,
     }
     cr.assumptions = ["sizes are measured on the JSON text of a bare string value"] + common.ASSUME_SIM[:1]
